@@ -28,9 +28,9 @@ D(id, ts, sv, exp, hops, peers) == [id |-> id, ts |-> ts, sv |-> sv, exp |-> exp
 P1 == <<H(11, 0, 1), H(12, 2, 0)>>
 P2 == <<H(11, 0, 1), H(12, 2, 6), H(13, 41, 0)>>
 P3 == <<H(21, 0, 3), H(13, 13, 0)>>
-Pool == << D(<<0, 4, 6>>, 0, 3, 2 * U, P1, <<>>),
+Pool == << D(<<0, 4, 6>>, 0, 3, 3 * U, P1, <<>>),
            D(<<0, 4, 6>>, U, 5, 2 * U, P1, << <<1, 42>> >>),
-           D(<<0, 4, 1>>, 0, 3, U, P2, <<>>),
+           D(<<0, 4, 1>>, 0, 3, U, P2, << <<2, 44>> >>),
            D(<<0, 4, 1>>, U, 4, 3 * U, P2, <<>>),
            D(<<0, 3, 6>>, 0, 3, 2 * U, P3, << <<2, 44>> >>) >>
 
